@@ -622,6 +622,8 @@ class Interp:
                     self.expr(n.step) if n.step else NONE)
         if isinstance(n, ast.Tuple):
             return ("tuple", tuple(self.index(e) for e in n.elts))
+        if isinstance(n, ast.Constant) and n.value is None:
+            return ("mod", "numpy.newaxis")         # x[:, None] is x[:, np.newaxis]
         return self._as_slice(self.expr(n))
 
     @staticmethod
@@ -1062,6 +1064,14 @@ def canon(t: Any) -> Any:
         if x[0] == "bin":
             y = mkbin(x[1], x[2], x[3])
             return y if y != x else None
+        if x[0] == "sub" and x[1][0] == "attr" and x[1][2] == "shape" and is_const(x[2]) and isinstance(x[2][1], int) and not isinstance(x[2][1], bool):
+            a = x[1][1]
+            if a[0] == "call" and a[1] in ("numpy.zeros", "numpy.ones", "numpy.empty") and a[2]:
+                shp = a[2][0]
+                if shp[0] == "tuple" and -len(shp[1]) <= x[2][1] < len(shp[1]) and not any(e[0] == "star" for e in shp[1]):
+                    return shp[1][x[2][1]]      # extent k of an array allocated with an explicit shape tuple
+                if shp[0] != "tuple" and x[2][1] == 0 and shp[0] in ("sym", "attr", "bin", "const", "call"):
+                    return shp
         return None
     return subst(t, fn)
 
